@@ -121,6 +121,12 @@ type cEnv struct {
 	ratArith bool
 	// sym: the receiver's bytes as symbolic bits (hybrid.go); nil = concrete bytes
 	sym *symState
+	// unkFlow: partial evaluation — a test on an unknown value runs every
+	// possible branch and keeps what they agree on (hybrid.go, "unknown mode")
+	unkFlow bool
+	// value returned on a path taken under an unknown condition, to be merged
+	// with the function's eventual result
+	pendingRet *Val
 }
 
 func newCEnv(p *Pkg, bytes []uint8) *cEnv {
@@ -129,7 +135,7 @@ func newCEnv(p *Pkg, bytes []uint8) *cEnv {
 }
 
 func (e *cEnv) child() *cEnv {
-	return &cEnv{p: e.p, bytes: e.bytes, vars: map[types.Object]Val{}, hook: e.hook, depth: e.depth + 1, steps: e.steps, ratArith: e.ratArith, loops: e.loops, sym: e.sym}
+	return &cEnv{p: e.p, bytes: e.bytes, vars: map[types.Object]Val{}, hook: e.hook, depth: e.depth + 1, steps: e.steps, ratArith: e.ratArith, loops: e.loops, sym: e.sym, unkFlow: e.unkFlow}
 }
 
 // bytesFromCodes assembles receiver bytes from metric codes through Set's
@@ -233,6 +239,20 @@ func (c *cEnv) callFuncIn(fd *ast.FuncDecl, args []Val, at ast.Node) (Val, error
 	ct, v, err := c.execBlock(fd.Body.List)
 	if err != nil {
 		return Val{}, err
+	}
+	if c.pendingRet != nil && ct == cReturn {
+		if v.K == VTuple && len(v.T) == 0 && len(results) > 0 {
+			var t []Val
+			for _, r := range results {
+				t = append(t, c.vars[r])
+			}
+			if len(t) == 1 {
+				v = t[0]
+			} else {
+				v = Val{K: VTuple, T: t}
+			}
+		}
+		return mergeUnk(v, *c.pendingRet), nil
 	}
 	if ct != cReturn {
 		if fd.Type.Results == nil || len(fd.Type.Results.List) == 0 {
@@ -480,6 +500,13 @@ func (e *cEnv) exec(s ast.Stmt) (ctrl, Val, error) {
 		if err != nil {
 			return cNext, Val{}, err
 		}
+		if c.K == VUnk && e.unkFlow {
+			var els []ast.Stmt
+			if st.Else != nil {
+				els = []ast.Stmt{st.Else}
+			}
+			return e.execUnknown([][]ast.Stmt{st.Body.List, els}, s)
+		}
 		if c.K != VBool {
 			return cNext, Val{}, undecidedf(st.Cond, "non-boolean condition")
 		}
@@ -518,12 +545,14 @@ func (e *cEnv) exec(s ast.Stmt) (ctrl, Val, error) {
 			}
 			return ct, v, err
 		}
+		var maybe []*ast.CaseClause // clauses that match under an unknown test
 		for _, cs := range st.Body.List {
 			cc := cs.(*ast.CaseClause)
 			if cc.List == nil {
 				def = cc
 				continue
 			}
+			clauseMaybe := false
 			for _, ce := range cc.List {
 				cv, err := e.eval(ce)
 				if err != nil {
@@ -531,18 +560,40 @@ func (e *cEnv) exec(s ast.Stmt) (ctrl, Val, error) {
 				}
 				match := false
 				if hasTag {
+					if e.unkFlow && (tag.K == VUnk || cv.K == VUnk) {
+						clauseMaybe = true
+						continue
+					}
 					eq, err := valEq(tag, cv, ce)
 					if err != nil {
 						return cNext, Val{}, err
 					}
 					match = eq
 				} else {
+					if e.unkFlow && cv.K == VUnk {
+						clauseMaybe = true
+						continue
+					}
 					match = cv.K == VBool && cv.I != 0
 				}
 				if match {
-					return run(cc)
+					if len(maybe) == 0 {
+						return run(cc)
+					}
+					maybe = append(maybe, cc)
+					return e.execUnknownClauses(maybe, false, s)
 				}
 			}
+			if clauseMaybe {
+				maybe = append(maybe, cc)
+			}
+		}
+		if len(maybe) > 0 {
+			if def != nil {
+				maybe = append(maybe, def)
+				return e.execUnknownClauses(maybe, false, s)
+			}
+			return e.execUnknownClauses(maybe, true, s)
 		}
 		if def != nil {
 			return run(def)
@@ -716,7 +767,16 @@ func constVal(tv types.TypeAndValue) (Val, bool) {
 
 func (e *cEnv) binop(op token.Token, a, b Val, t types.Type, at ast.Node) (Val, error) {
 	if a.K == VBits || b.K == VBits {
-		return bitsBinop(op, a, b, t, at)
+		v, err := bitsBinop(op, a, b, t, at)
+		if err != nil && e != nil && e.unkFlow {
+			if _, isSplit := err.(*needSplit); isSplit {
+				return Val{K: VUnk}, nil
+			}
+		}
+		return v, err
+	}
+	if (a.K == VUnk || b.K == VUnk) && e != nil && e.unkFlow {
+		return Val{K: VUnk}, nil
 	}
 	switch op {
 	case token.EQL, token.NEQ:
@@ -760,6 +820,9 @@ func (e *cEnv) binop(op token.Token, a, b Val, t types.Type, at ast.Node) (Val, 
 	if a.K == VUnk || b.K == VUnk {
 		switch op {
 		case token.ADD, token.SUB, token.MUL, token.AND, token.OR, token.XOR, token.AND_NOT, token.SHL, token.SHR:
+			return Val{K: VUnk}, nil
+		}
+		if e != nil && e.unkFlow {
 			return Val{K: VUnk}, nil
 		}
 		return Val{}, undecidedf(at, "operator %s on an unknown value", op)
@@ -977,6 +1040,9 @@ func (e *cEnv) eval(x ast.Expr) (Val, error) {
 			if a.K == VBool {
 				return vBool(a.I == 0), nil
 			}
+			if a.K == VUnk && e.unkFlow {
+				return a, nil
+			}
 		case token.SUB:
 			if a.K == VInt {
 				return vInt(-a.I), nil
@@ -1027,6 +1093,17 @@ func (e *cEnv) eval(x ast.Expr) (Val, error) {
 			if err != nil {
 				return Val{}, err
 			}
+			if a.K == VUnk && e.unkFlow {
+				b, err := e.eval(n.Y)
+				if err != nil {
+					return Val{}, err
+				}
+				// false && ? / true || ? are decided by the known side
+				if b.K == VBool && ((n.Op == token.LAND && b.I == 0) || (n.Op == token.LOR && b.I != 0)) {
+					return b, nil
+				}
+				return Val{K: VUnk}, nil
+			}
 			if a.K != VBool {
 				return Val{}, undecidedf(x, "non-boolean operand")
 			}
@@ -1036,6 +1113,9 @@ func (e *cEnv) eval(x ast.Expr) (Val, error) {
 			b, err := e.eval(n.Y)
 			if err != nil {
 				return Val{}, err
+			}
+			if b.K == VUnk && e.unkFlow {
+				return b, nil
 			}
 			if b.K != VBool {
 				return Val{}, undecidedf(x, "non-boolean operand")
@@ -1140,9 +1220,15 @@ func (e *cEnv) eval(x ast.Expr) (Val, error) {
 		if i.K == VBits {
 			c, err := concretizeBits(i, n.Index)
 			if err != nil {
+				if _, isSplit := err.(*needSplit); isSplit && e.unkFlow {
+					return Val{K: VUnk}, nil
+				}
 				return Val{}, err
 			}
 			i = c
+		}
+		if i.K == VUnk && e.unkFlow {
+			return Val{K: VUnk}, nil
 		}
 		if a.K == VMap {
 			if i.K != VStr {
@@ -1273,6 +1359,29 @@ func (e *cEnv) evalCall(n *ast.CallExpr) (Val, error) {
 			switch id.Name {
 			case "panic":
 				return Val{}, &panicked{pos: n.Pos(), msg: types.ExprString(n)}
+			case "min", "max":
+				var best Val
+				for i, a := range n.Args {
+					v, err := e.eval(a)
+					if err != nil {
+						return Val{}, err
+					}
+					if v.K == VUnk {
+						return v, nil
+					}
+					if v.K != VInt && v.K != VRat {
+						return Val{}, undecidedf(n, "builtin %s on %s", id.Name, v)
+					}
+					if i == 0 {
+						best = v
+						continue
+					}
+					c := toRat(v).Cmp(toRat(best))
+					if (id.Name == "min" && c < 0) || (id.Name == "max" && c > 0) {
+						best = v
+					}
+				}
+				return best, nil
 			case "len":
 				a, err := e.eval(n.Args[0])
 				if err != nil {
@@ -1691,4 +1800,165 @@ func (p *Pkg) pkgVarWritten(v *types.Var) bool {
 		}
 	}
 	return p.varWritten[v]
+}
+
+// ---------------------------------------------------------------------------
+// partial evaluation: branches under unknown conditions
+
+func valSame(a, b Val) bool {
+	if a.K != b.K {
+		return false
+	}
+	switch a.K {
+	case VInt, VBool:
+		return a.I == b.I
+	case VStr, VOpaque:
+		return a.S == b.S
+	case VRat:
+		return a.R.Cmp(b.R) == 0
+	case VNil, VNaN:
+		return true
+	case VTuple, VList:
+		if len(a.T) != len(b.T) {
+			return false
+		}
+		for i := range a.T {
+			if !valSame(a.T[i], b.T[i]) {
+				return false
+			}
+		}
+		return true
+	case VStruct:
+		if len(a.F) != len(b.F) || a.S != b.S {
+			return false
+		}
+		for k, v := range a.F {
+			w, ok := b.F[k]
+			if !ok || !valSame(v, w) {
+				return false
+			}
+		}
+		return true
+	}
+	return false
+}
+
+// mergeUnk: what two possible values agree on
+func mergeUnk(a, b Val) Val {
+	if valSame(a, b) {
+		return a
+	}
+	if a.K == VTuple && b.K == VTuple && len(a.T) == len(b.T) {
+		out := Val{K: VTuple}
+		for i := range a.T {
+			out.T = append(out.T, mergeUnk(a.T[i], b.T[i]))
+		}
+		return out
+	}
+	if a.K == VStruct && b.K == VStruct && a.S == b.S && len(a.F) == len(b.F) {
+		out := Val{K: VStruct, S: a.S, I: a.I, F: map[string]Val{}}
+		for k, v := range a.F {
+			out.F[k] = mergeUnk(v, b.F[k])
+		}
+		return out
+	}
+	return Val{K: VUnk}
+}
+
+func (e *cEnv) execUnknownClauses(cls []*ast.CaseClause, orNothing bool, at ast.Node) (ctrl, Val, error) {
+	var branches [][]ast.Stmt
+	for _, cc := range cls {
+		for _, bs := range cc.Body {
+			if br, ok := bs.(*ast.BranchStmt); ok && br.Tok == token.FALLTHROUGH {
+				return cNext, Val{}, undecidedf(bs, "fallthrough")
+			}
+		}
+		branches = append(branches, cc.Body)
+	}
+	if orNothing {
+		branches = append(branches, nil)
+	}
+	ct, v, err := e.execUnknown(branches, at)
+	if ct == cBreak {
+		ct = cNext
+	}
+	return ct, v, err
+}
+
+// execUnknown runs every branch on a copy of the variables and merges the
+// outcomes: variables keep the values all branches agree on, a value returned
+// by some branches only is remembered and merged into the function's result.
+func (e *cEnv) execUnknown(branches [][]ast.Stmt, at ast.Node) (ctrl, Val, error) {
+	snap := make(map[types.Object]Val, len(e.vars))
+	for k, v := range e.vars {
+		snap[k] = v
+	}
+	type outc struct {
+		ct   ctrl
+		v    Val
+		vars map[types.Object]Val
+	}
+	var outs []outc
+	for _, b := range branches {
+		e.vars = make(map[types.Object]Val, len(snap))
+		for k, v := range snap {
+			e.vars[k] = v
+		}
+		ct, v, err := e.execBlock(b)
+		if err != nil {
+			return cNext, Val{}, err
+		}
+		outs = append(outs, outc{ct, v, e.vars})
+	}
+	var cont []outc
+	var rets []Val
+	var flow ctrl = cNext
+	first := true
+	for _, o := range outs {
+		if o.ct == cReturn {
+			rets = append(rets, o.v)
+			continue
+		}
+		if first {
+			flow, first = o.ct, false
+		} else if o.ct != flow {
+			return cNext, Val{}, undecidedf(at, "branches under an unknown condition leave a loop in different ways")
+		}
+		cont = append(cont, o)
+	}
+	if len(cont) == 0 {
+		v := rets[0]
+		for _, r := range rets[1:] {
+			v = mergeUnk(v, r)
+		}
+		e.vars = snap
+		return cReturn, v, nil
+	}
+	merged := map[types.Object]Val{}
+	for k, v := range cont[0].vars {
+		ok := true
+		mv := v
+		for _, o := range cont[1:] {
+			w, has := o.vars[k]
+			if !has {
+				ok = false
+				break
+			}
+			mv = mergeUnk(mv, w)
+		}
+		if ok {
+			merged[k] = mv
+		}
+	}
+	e.vars = merged
+	for _, r := range rets {
+		if e.pendingRet == nil {
+			rr := r
+			e.pendingRet = &rr
+		} else {
+			m := mergeUnk(*e.pendingRet, r)
+			e.pendingRet = &m
+		}
+	}
+	return flow, Val{}, nil
 }
